@@ -109,8 +109,11 @@ instance (s : S) (n lo len : Int) : Decidable (ClaimOk s n lo len) := by unfold 
 
 /-- One monitored step. `none` = the observation violates C11. -/
 def step (s : S) : Op → Obs → Option S
-  | .new req page, .created size => if NewOk req page size then some (fresh size) else none
-  | .new _ _, .refused => some dead          -- a request that is not accepted creates no buffer
+  | .new req page, ob =>
+    match ob with
+    | .created size => if NewOk req page size then some (fresh size) else none
+    | .refused => some dead                -- a request that is not accepted creates no buffer
+    | _ => none
   | op, ob =>
     if s.live = false then (if ob = .nobuf then some s else none) else
     match op, ob with
@@ -166,8 +169,11 @@ def CClaimOk (s : C) (n lo len : Int) : Prop :=
 instance (s : C) (n lo len : Int) : Decidable (CClaimOk s n lo len) := by unfold CClaimOk; exact inferInstance
 
 def cstep (s : C) : Op → Obs → Option C
-  | .new req page, .created size => if NewOk req page size then some (cfresh size) else none
-  | .new _ _, .refused => some cdead
+  | .new req page, ob =>
+    match ob with
+    | .created size => if NewOk req page size then some (cfresh size) else none
+    | .refused => some cdead
+    | _ => none
   | op, ob =>
     if s.live = false then (if ob = .nobuf then some s else none) else
     match op, ob with
